@@ -145,7 +145,17 @@ def run(ctx, rep):
         rep.count("relative", rel)
         rep.count("M", M)
         rep.sample({k: case[k] for k in ("metric", "relative", "consts")} | {"equation": G.describe(stack_l)})
-        fit = ExplicitRegression(ExplicitTrainingData(x, y), metric=METRICS[mname], relative=rel)
+        if rng.random() < 0.3:
+            # the fitness object is built on OTHER data of the same shape and the data under test is swapped in afterwards
+            # (what RandomSubsetEvaluation and the fitness-predictor island do): the definitions refer to the current data
+            y_other = y * rng.choice([-2.0, 0.5, 3.0]) + rng.choice([0.0, 1.0])
+            y_other[np.abs(y_other) < 0.05] = 0.7
+            fit = ExplicitRegression(ExplicitTrainingData(x + 0.25, y_other), metric=METRICS[mname], relative=rel)
+            fit.training_data = ExplicitTrainingData(x, y)
+            rep.count("training_data", "swapped in after construction")
+        else:
+            fit = ExplicitRegression(ExplicitTrainingData(x, y), metric=METRICS[mname], relative=rel)
+            rep.count("training_data", "given to the constructor")
         with warnings.catch_warnings():
             warnings.simplefilter("ignore")
             try:
